@@ -179,7 +179,7 @@ func CheckConstraints[F algebra.PrimeFieldElement[F]](field algebra.PrimeField[F
 	}
 
 	// we increase n and k by one to accommodate "off by one error" caused by precision lost with float64
-	n := uint64(prevMax) + 1
+	n := float64(prevMax) + 1
 	k := uint64(ac.Levels()[len(ac.Levels())-1].Threshold()) + 1
 	q, _ := field.Order().Big().Float64()
 
@@ -192,7 +192,7 @@ func CheckConstraints[F algebra.PrimeFieldElement[F]](field algebra.PrimeField[F
 
 	// constraint 3 (equation 35): α(k)N^((k−1)(k−2)/2) < q = |F| where α(k) := 2^(−k+2) ·(k−1)^((k−1)/2) ·(k−1)!
 	alpha := math.Pow(2.0, 2.0-float64(k)) * math.Pow(float64(k-1), (float64(k)-1.0)/2.0) * float64(errs.Must1(mathutils.FactorialUint64(k-1)))
-	if (alpha * math.Pow(float64(n), (float64(k)-1.0)*(float64(k)-2)/2.0)) >= q {
+	if (alpha * math.Pow(n, (float64(k)-1.0)*(float64(k)-2)/2.0)) >= q {
 		return ErrFailed.WithMessage("constraint failed")
 	}
 
